@@ -13,13 +13,18 @@ pub mod logger_handle {
         //@ sig src/logger_handle.rs impl LoggerHandle / fn set_new_spec
         //@   props C05
         //@   req[LoggerHandle::set_new_spec.perm] LoggerHandle::set_ok(new_spec)
+        //@   ens self.active_after() == new_spec
     //@ fn src/logger_handle.rs impl LoggerHandle / fn parse_new_spec
     //@   ret r
     //@   props C05
     //@   req[parse_new_spec.pre.perm] forall|s: LogSpecification| #[trigger] LoggerHandle::set_ok(s) <==> (parse_result(as_str_view::<&str>(spec)) is Ok && s == parse_result(as_str_view::<&str>(spec))->Ok_0)
     //@   ens[parse_new_spec.post] r is Ok <==> parse_result(as_str_view::<&str>(spec)) is Ok
+    //@   ens[parse_new_spec.post.written] r is Ok ==> self.active_after() == parse_result(as_str_view::<&str>(spec))->Ok_0
+    //@   count 1 .set_new_spec(
     //@   canary
     }
 }
 }
+// plain-Rust glue outside verus! (never executed, not verified): the shim has the real type's Display so that code using it still parses
+impl std::fmt::Display for log_specification::LogSpecification { fn fmt(&self, _f: &mut std::fmt::Formatter) -> std::fmt::Result { Ok(()) } }
 fn main() {}
